@@ -280,13 +280,16 @@ func (s *Set) WithTag(t string) []*Element {
 }
 
 // OnBody = GET label/<l>: the elements sitting on a voxel of body l (never for l == 0).
-func (s *Set) OnBody(v *LabelVol, body uint64) []*Element {
+func (s *Set) OnBody(v *LabelVol, body uint64) []*Element { return s.OnBodyFn(v.BodyAt, body) }
+
+// OnBodyFn is OnBody with an arbitrary "body at voxel" function.
+func (s *Set) OnBodyFn(bodyAt func(Point) uint64, body uint64) []*Element {
 	var out []*Element
 	if body == 0 {
 		return out
 	}
 	for p, e := range s.E {
-		if v.BodyAt(p) == body {
+		if bodyAt(p) == body {
 			out = append(out, e)
 		}
 	}
@@ -295,10 +298,13 @@ func (s *Set) OnBody(v *LabelVol, body uint64) []*Element {
 
 // Counts = labelsz: body -> index type -> number of elements on that body ("AllSyn" = PostSyn+PreSyn+Gap).
 // Only non-zero counts are present.
-func (s *Set) Counts(v *LabelVol) map[uint64]map[string]int {
+func (s *Set) Counts(v *LabelVol) map[uint64]map[string]int { return s.CountsFn(v.BodyAt) }
+
+// CountsFn is Counts with an arbitrary "body at voxel" function.
+func (s *Set) CountsFn(bodyAt func(Point) uint64) map[uint64]map[string]int {
 	out := map[uint64]map[string]int{}
 	for p, e := range s.E {
-		b := v.BodyAt(p)
+		b := bodyAt(p)
 		if b == 0 {
 			continue
 		}
